@@ -1161,6 +1161,20 @@ bool evaluate_impl(const void *context, const GraphView &graph,
     state.evaluation_cursor = first_normal_node;
   }
 
+  // An exception ends the scan at the failing node. The nodes after it have
+  // not been visited, so their pending wake-ups are not in
+  // next_scheduled_time yet; when the exception is captured (try_except_,
+  // map_ error capture) the graph keeps running and must still honour them.
+  auto keep_unvisited_wakeups = [&] {
+    for (std::size_t index = state.evaluation_cursor + 1;
+         index < runtime.layout.node_count; ++index) {
+      const DateTime pending = graph_schedule(runtime, graph.data(), index);
+      if (pending > evaluation_time && pending < state.next_scheduled_time) {
+        state.next_scheduled_time = pending;
+      }
+    }
+  };
+
   for (; state.evaluation_cursor < runtime.layout.node_count;
        ++state.evaluation_cursor) {
     auto &scheduled =
@@ -1182,13 +1196,17 @@ bool evaluate_impl(const void *context, const GraphView &graph,
             [&] { return node_view.evaluate(state.evaluation_time); },
             [&] {
               state.evaluation_failed = true;
+              keep_unvisited_wakeups();
               rethrow_with_node_identity(node_view, state.evaluation_cursor,
                                          "evaluate");
             });
       } else {
         completed = annotate_on_exception(
             [&] { return node_view.evaluate(state.evaluation_time); },
-            [&] { state.evaluation_failed = true; });
+            [&] {
+              state.evaluation_failed = true;
+              keep_unvisited_wakeups();
+            });
       }
       if (!completed) {
         // Pause requested: hold the cursor on this node and propagate upward
